@@ -73,11 +73,24 @@ int tbl_batches(const hist_t* h, int rg, int ci) {
     return n;
 }
 
+int tbl_logical_on;
+bool tbl_logical_of(const hist_t* h, int c, carquet_logical_type_t* lt) {
+    if (!tbl_logical_on) return false;
+    int sel = (h->N + 3 * h->ncols + h->codec) % 6; if (sel < 3) return false; sel -= 3;
+    memset(lt, 0, sizeof *lt);
+    switch (h->cols[c].ptype) {
+    case CARQUET_PHYSICAL_INT64: lt->id = CARQUET_LOGICAL_TIMESTAMP; lt->params.timestamp.unit = (carquet_time_unit_t)sel; lt->params.timestamp.is_adjusted_to_utc = (c & 1) == 0; return true;
+    case CARQUET_PHYSICAL_INT32: if (sel == 0) lt->id = CARQUET_LOGICAL_DATE; else if (sel == 1) { lt->id = CARQUET_LOGICAL_TIME; lt->params.time.unit = CARQUET_TIME_UNIT_MILLIS; lt->params.time.is_adjusted_to_utc = true; } else { lt->id = CARQUET_LOGICAL_INTEGER; lt->params.integer.bit_width = 16; lt->params.integer.is_signed = true; } return true;
+    case CARQUET_PHYSICAL_BYTE_ARRAY: lt->id = sel == 0 ? CARQUET_LOGICAL_STRING : sel == 1 ? CARQUET_LOGICAL_JSON : CARQUET_LOGICAL_ENUM; return true;
+    default: return false;
+    }
+}
 carquet_schema_t* tbl_schema(const hist_t* h) {
     carquet_error_t err = CARQUET_ERROR_INIT; carquet_schema_t* s = carquet_schema_create(&err);
     if (!s) return NULL;
     for (int c = 0; c < h->ncols; c++)
-        if (carquet_schema_add_column(s, h->cols[c].name, (carquet_physical_type_t)h->cols[c].ptype, NULL, h->cols[c].opt ? CARQUET_REPETITION_OPTIONAL : CARQUET_REPETITION_REQUIRED, h->cols[c].tlen) != CARQUET_OK) { carquet_schema_free(s); return NULL; }
+    { carquet_logical_type_t lt; bool has = tbl_logical_of(h, c, &lt);
+        if (carquet_schema_add_column(s, h->cols[c].name, (carquet_physical_type_t)h->cols[c].ptype, has ? &lt : NULL, h->cols[c].opt ? CARQUET_REPETITION_OPTIONAL : CARQUET_REPETITION_REQUIRED, h->cols[c].tlen) != CARQUET_OK) { carquet_schema_free(s); return NULL; } }
     return s;
 }
 
